@@ -17,6 +17,7 @@ import (
 	"github.com/bluenviron/gortsplib/v5/pkg/description"
 	"github.com/bluenviron/gortsplib/v5/pkg/format"
 	"github.com/bluenviron/gortsplib/v5/pkg/headers"
+	"github.com/pion/rtcp"
 )
 
 const watchdog = 5 * time.Second
@@ -747,6 +748,29 @@ func (in *instance) probe(cl *client, after string) (closed bool, probeErr strin
 		}
 	}
 	return closed, probeErr
+}
+
+// doNonRequest makes the client send something that is not a request: an interleaved frame (RTCP
+// receiver report on channel 1) or an RTSP response; reports whether the server closed the connection.
+func (in *instance) doNonRequest(idx int, frame bool) (closed bool, delivered bool) {
+	cl, ok := in.clients[idx]
+	if !ok || cl.dead || !in.serverOpen(idx) {
+		return false, false
+	}
+	cl.nc.SetWriteDeadline(time.Now().Add(watchdog))
+	var err error
+	if frame {
+		payload, _ := (&rtcp.ReceiverReport{SSRC: 99}).Marshal()
+		err = cl.c.WriteInterleavedFrame(&base.InterleavedFrame{Channel: 1, Payload: payload}, make([]byte, 2048))
+	} else {
+		err = cl.c.WriteResponse(&base.Response{StatusCode: base.StatusOK, Header: base.Header{"CSeq": base.HeaderValue{"1"}}})
+	}
+	if err != nil {
+		in.hang = "write on an open connection failed: " + err.Error()
+	}
+	closed, _ = in.probe(cl, "a non-request")
+	in.settle()
+	return closed, true
 }
 
 // BatchResult is what the client saw for a pipelined batch.
